@@ -111,28 +111,32 @@ def _cost(img, i1, j1, i2, j2, m, n, w):
 
 
 def make_hint(case, out):
-    """(pixel, predecessor) pairs in breadth-first order along tight edges (d v == d u + w(u,v),
-    same label).  Only a hint: the Coq checker verifies every pair."""
+    """((pixel, predecessor), label) triples [vi, vj, ui, uj, label] in breadth-first order along tight
+    edges (d v == d u + w(u,v)): "a path from a seed labelled `label` reaches v at cost d v".  A non-seed
+    pixel is entered only with its own output label; a masked seed may be crossed by a foreign label at
+    cost 0.  Only a hint: the Coq checker verifies every triple."""
     m, n = case["m"], case["n"]
     try:
         img = bits_arr(case["image"]).reshape(m, n).tolist()
         d = bits_arr(out["d"]).reshape(m, n).tolist()
         lo = out["lo"]
         lab, mask, w = case["labels"], case["mask"], b2f(case["weight"])
-        R = [(i, j) for i in range(m) for j in range(n) if lab[i][j] > 0 and mask[i][j]]
+        R = [(i, j, lab[i][j]) for i in range(m) for j in range(n) if lab[i][j] > 0 and mask[i][j]]
         seen = set(R)
         hint = []
         k = 0
         while k < len(R):
-            i1, j1 = R[k]; k += 1
+            i1, j1, l = R[k]; k += 1
             for t in range(8):
                 i2, j2 = i1 + DI[t], j1 + DJ[t]
-                if i2 < 0 or i2 >= m or j2 < 0 or j2 >= n or (i2, j2) in seen:
+                if i2 < 0 or i2 >= m or j2 < 0 or j2 >= n or (i2, j2, l) in seen:
                     continue
-                if not mask[i2][j2] or lab[i2][j2] != 0 or d[i2][j2] == -1.0 or lo[i2][j2] != lo[i1][j1]:
+                if not mask[i2][j2] or lab[i2][j2] < 0 or d[i2][j2] == -1.0:
+                    continue
+                if lab[i2][j2] == 0 and lo[i2][j2] != l:
                     continue
                 if d[i2][j2] == d[i1][j1] + _cost(img, i1, j1, i2, j2, m, n, w):
-                    seen.add((i2, j2)); R.append((i2, j2)); hint.append([i2, j2, i1, j1])
+                    seen.add((i2, j2, l)); R.append((i2, j2, l)); hint.append([i2, j2, i1, j1, l])
         return hint
     except Exception:
         return []
@@ -158,7 +162,7 @@ def coq_eval(ctx, module, entry, args, tag, weights=None, timeout=1500):
     weights = weights or [1] * n
     order = sorted(range(n), key=lambda k: -weights[k])
     total = float(sum(weights)) or 1.0
-    nshards = max(1, min(n, max(JOBS * 2, (n + 199) // 200)))
+    nshards = max(1, min(n, max(JOBS * 3, (n + 99) // 100)))
     budget = total / nshards
     shards, cur, acc = [], [], 0.0
     for k in order:
@@ -262,6 +266,15 @@ def evaluate_cases(ctx, cases, outs):
                     zres[k] = v if isinstance(v, int) else 0
         for k, v in zip(todo, r):
             cache[_key(cases[k], outs[k])] = None if v is None else [v[0], v[1], zres.get(k)]
+        # attribution data for the failures of this batch, in one parallel run: does the Full64-key
+        # model pass prop_check on the inputs where the implementation equals the Dropped-key model?
+        fi = [k for k, v in zip(todo, r) if v is not None and v[0] == 1 and v[1] != 1
+              and "full64:" + _key(cases[k], None) not in cache]
+        if fi:
+            fr = coq_eval(ctx, "Spec.PropCheck", "entry_model_passes", [_arg(cases[k], 1) for k in fi], "attr",
+                          [(cases[k]["m"] * cases[k]["n"]) ** 2 for k in fi])
+            for k, v in zip(fi, fr):
+                cache["full64:" + _key(cases[k], None)] = v
     return [cache.get(_key(c, o)) if _well_formed(c, o) else None for c, o in zip(cases, outs)]
 
 
